@@ -101,3 +101,117 @@ def struct_probe(tier, seed):
     return {'name': 'struct_probe', 'evaluations': n, 'distinct_nontrivial': n,
             'rule': 'E-STRUCT/E-HEX probe: boundaries and 100 random values per struct format, out-of-range must raise; 200 random byte strings for int(hex)',
             'samples': ['int32_pack(-1) == ffffffff'], 'violations': bad[:3], 'bound': '%d probes' % n}
+
+
+def timestamp_roundtrip(tier, seed):
+    """timestamp (DateType): millisecond-precision instants of years 1..9999 survive deserialize(serialize(.)) exactly."""
+    import datetime
+    from cassandra import cqltypes, marshal
+    rng = _rng(seed)
+    epoch = datetime.datetime(1970, 1, 1)
+    lo = int((datetime.datetime(1, 1, 1) - epoch).total_seconds()) * 1000
+    hi = int((datetime.datetime(9999, 12, 31, 23, 59, 59) - epoch).total_seconds()) * 1000 + 999
+    n = 3000 if tier == 'quick' else 200000
+    vals = [lo, lo + 1, -1, 0, 1, 999, 1000, 1001, hi - 1, hi, 1500000000123, 253402300799999, -62135596800000]
+    vals += [rng.randrange(lo, hi + 1) for _ in range(n)]
+    bad = []
+    for ms in vals:
+        dt = cqltypes.DateType.deserialize(marshal.int64_pack(ms), 4)
+        exp = epoch + datetime.timedelta(milliseconds=ms)
+        back = marshal.int64_unpack(cqltypes.DateType.serialize(exp, 4))
+        if dt != exp or back != ms:
+            bad.append({'milliseconds': ms, 'decoded': str(dt), 'expected': str(exp), 'reencoded_ms': back})
+    return {'name': 'timestamp_roundtrip', 'evaluations': len(vals), 'distinct_nontrivial': len(set(vals)),
+            'rule': 'millisecond timestamps uniformly over years 1..9999 plus boundaries; distinct = distinct values',
+            'samples': vals[10:13], 'violations': bad[:3], 'bound': '%d instants' % len(vals)}
+
+
+def inet_roundtrip(tier, seed):
+    from cassandra import cqltypes
+    import ipaddress
+    rng = _rng(seed)
+    vals = ['0.0.0.0', '255.255.255.255', '127.0.0.1', '::', '::1', 'ffff:ffff:ffff:ffff:ffff:ffff:ffff:ffff', '2001:db8::1']
+    for _ in range(300 if tier == 'quick' else 20000):
+        vals.append(str(ipaddress.IPv4Address(rng.randrange(1 << 32))))
+        vals.append(str(ipaddress.IPv6Address(rng.randrange(1 << 128))))
+    bad = []
+    for a in vals:
+        b = cqltypes.InetAddressType.serialize(a, 4)
+        back = cqltypes.InetAddressType.deserialize(b, 4)
+        if ipaddress.ip_address(back) != ipaddress.ip_address(a) or b != ipaddress.ip_address(a).packed:
+            bad.append({'address': a, 'bytes': b.hex(), 'decoded': back})
+    return {'name': 'inet_roundtrip', 'evaluations': len(vals), 'distinct_nontrivial': len(set(vals)),
+            'rule': 'random IPv4/IPv6 addresses + boundaries; compared as addresses (text form is normalised)', 'samples': vals[:3],
+            'violations': bad[:3], 'bound': '%d addresses' % len(vals)}
+
+
+def nested_end_to_end(tier, seed):
+    """Real nested types (lookup_casstype) over generated values, all protocol versions: deserialize(serialize(v)) == norm(v)."""
+    import datetime, decimal, uuid
+    from cassandra import cqltypes, util
+    rng = _rng(seed)
+    scal = {
+        'Int32Type': lambda: rng.randrange(-2 ** 31, 2 ** 31), 'LongType': lambda: rng.randrange(-2 ** 63, 2 ** 63),
+        'UTF8Type': lambda: ''.join(rng.choice(['a', 'é', '\U0001F600', '', 'z\x00']) for _ in range(rng.randrange(0, 4))),
+        'IntegerType': lambda: rng.randrange(-2 ** 70, 2 ** 70), 'BooleanType': lambda: rng.random() < 0.5,
+        'BytesType': lambda: bytes(rng.randrange(256) for _ in range(rng.randrange(0, 5))),
+        'UUIDType': lambda: uuid.UUID(int=rng.randrange(1 << 128)), 'DoubleType': lambda: rng.uniform(-1e9, 1e9),
+        'ShortType': lambda: rng.randrange(-2 ** 15, 2 ** 15), 'SimpleDateType': lambda: util.Date(rng.randrange(-2 ** 31, 2 ** 31)),
+        'TimeType': lambda: util.Time(rng.randrange(0, 86400 * 10 ** 9)),
+        'DurationType': lambda: util.Duration(rng.randrange(-2 ** 31, 2 ** 31), rng.randrange(-2 ** 31, 2 ** 31), rng.randrange(-2 ** 63, 2 ** 63)),
+        'DecimalType': lambda: decimal.Decimal(rng.randrange(-10 ** 20, 10 ** 20)).scaleb(rng.randrange(-10, 10)),
+    }
+    P = 'org.apache.cassandra.db.marshal.'
+
+    def gen_type(depth):
+        if depth == 0 or rng.random() < 0.3:
+            n = rng.choice(sorted(scal))
+            return P + n, scal[n], (lambda v: v)
+        kind = rng.choice(['list', 'set', 'map', 'tuple'])
+        if kind == 'list':
+            tn, g, nm = gen_type(depth - 1)
+            return P + 'ListType(%s)' % tn, (lambda: [g() for _ in range(rng.randrange(0, 3))]), (lambda v: [nm(x) for x in v])
+        if kind == 'set':
+            n = rng.choice(['Int32Type', 'UTF8Type', 'LongType'])
+            g = scal[n]
+            return P + 'SetType(%s)' % (P + n), (lambda: set(g() for _ in range(rng.randrange(0, 3)))), (lambda v: sorted(v))
+        if kind == 'map':
+            n = rng.choice(['Int32Type', 'UTF8Type'])
+            gk = scal[n]
+            tn, gv, nm = gen_type(depth - 1)
+            return P + 'MapType(%s,%s)' % (P + n, tn), (lambda: dict((gk(), gv()) for _ in range(rng.randrange(0, 3)))), \
+                (lambda v: [(k, nm(x)) for k, x in v.items()])
+        parts = [gen_type(depth - 1) for _ in range(rng.randrange(1, 4))]
+        return P + 'TupleType(%s)' % ','.join(p[0] for p in parts), \
+            (lambda: tuple(None if rng.random() < 0.2 else p[1]() for p in parts)), \
+            (lambda v: tuple(None if x is None else p[2](x) for p, x in zip(parts, v)))
+
+    def canon(x):
+        if isinstance(x, util.OrderedMap):
+            return [(canon(k), canon(v)) for k, v in x.items()]
+        if isinstance(x, util.SortedSet):
+            return [canon(e) for e in x]
+        if isinstance(x, (list, tuple)):
+            return type(x)(canon(e) for e in x) if not hasattr(x, '_fields') else tuple(canon(e) for e in x)
+        if isinstance(x, dict):
+            return [(canon(k), canon(v)) for k, v in x.items()]
+        return x
+    n = 400 if tier == 'quick' else 20000
+    bad = []
+    seen = set()
+    for i in range(n):
+        tn, g, nm = gen_type(rng.randrange(0, 4))
+        t = cqltypes.lookup_casstype(tn)
+        v = g()
+        for pv in (rng.choice((1, 2)), rng.choice((3, 4, 5, 6, 65, 66))):
+            try:
+                back = t.deserialize(t.serialize(v, pv), pv)
+            except Exception as e:
+                bad.append({'type': tn, 'value': repr(v)[:200], 'pv': pv, 'error': repr(e)})
+                continue
+            seen.add((tn, repr(v)[:80]))
+            if canon(back) != canon(nm(v)):
+                bad.append({'type': tn, 'value': repr(v)[:200], 'pv': pv, 'decoded': repr(back)[:200]})
+    return {'name': 'nested_end_to_end', 'evaluations': 2 * n, 'distinct_nontrivial': len(seen),
+            'rule': 'random type trees (depth <= 3) over 13 scalar types x list/set/map/tuple, random values incl. None tuple fields, one v1/v2 and one v3+ version each; distinct = distinct (type, value) pairs',
+            'samples': [tn], 'violations': bad[:3], 'bound': '%d (type, value) cases' % n}
